@@ -23,7 +23,8 @@ TECHNIQUE = "property-based testing (Hypothesis) against an independent model of
 RULE = ("Hypothesis draws 1-6 bind markers (distinct column names, occasionally a repeated non-key name) typed from "
         "{int, bigint, text, blob, uuid, boolean, timestamp, double, varint, list<int>, list<text>, map<text,int>, "
         "tuple<int,text>}, a partition key of 1-3 of those columns in an order independent of the bind order (or with one "
-        "component absent from the statement), the way the routing indexes reach the driver (pk_indexes of a v4+ PREPARED "
+        "component absent from the statement; in one case out of seven one key component is a blob/text of 32767..65535 "
+        "serialized bytes, the boundaries of the composite's 16-bit length prefix), the way the routing indexes reach the driver (pk_indexes of a v4+ PREPARED "
         "response, table metadata for v1-3, or unknown table), a complete assignment (non-key values may be None), and a "
         "binding variation: number of positional values supplied (short, exact, too many), names omitted from the dict, extra "
         "dict keys, explicit UNSET_VALUE positions; protocol versions 1-6 and DSE 0x41/0x42.  Non-trivial: a composite "
@@ -93,11 +94,21 @@ def s_case(draw):
         if i not in pk_pos and draw(st.integers(0, 6)) == 0:
             v = None
         assign[c["name"]] = v
+    # a key component whose serialized length sits at the int16/uint16 boundaries of the composite's length prefix
+    # (legal up to 65535 bytes); described compactly, the value is built in interpret()
+    big = None
+    if draw(st.integers(0, 6)) == 0:
+        i = draw(st.sampled_from(pk_pos))
+        cols[i]["type"] = draw(st.sampled_from(["blob", "text"]))
+        big = {"name": cols[i]["name"],
+               "len": draw(st.one_of(st.sampled_from([32767, 32768, 32769, 65534, 65535]), st.integers(32768, 65535))),
+               "fill": draw(st.sampled_from([0x00, 0x61, 0x7f, 0xff])) if cols[i]["type"] == "blob" else 0x61}
+        assign[cols[i]["name"]] = "" 
     names = sorted(assign)
     variation = draw(st.sampled_from(["full", "full", "short", "short", "short", "long", "omit", "omit", "omit",
                                       "unset", "unset", "extra-keys"]))
     case = {"pv": pv, "cols": cols, "pk": pk, "source": source, "assign": assign, "variation": variation,
-            "n_pos": n, "omit": [], "unset": [], "extra": []}
+            "n_pos": n, "omit": [], "unset": [], "extra": [], "big": big}
     if variation == "short":
         case["n_pos"] = draw(st.integers(0, n - 1))
     elif variation == "long":
@@ -262,7 +273,12 @@ def _judge(ctx, sub, feat, prepared, arg, verdict):
 
 def interpret(case, ctx):
     from cassandra.metadata import Murmur3Token
-    pv, cols, assign = case["pv"], case["cols"], case["assign"]
+    pv, cols, assign = case["pv"], case["cols"], dict(case["assign"])
+    big = case.get("big")
+    if big:
+        btype = [c["type"] for c in cols if c["name"] == big["name"]][0]
+        assign[big["name"]] = ("%02x" % big["fill"]) * big["len"] if btype == "blob" else chr(big["fill"]) * big["len"]
+        ctx.label("key-component-bytes:" + ("<=32767" if big["len"] <= 32767 else "32768..65535"))
     n = len(cols)
     era = "v4+" if pv >= 4 else "pre-v4"
     with ctx.driver(["C30.prepare"]):
@@ -291,6 +307,7 @@ def interpret(case, ctx):
                   "positional %r != by-name %r" % (b_pos.values, b_dict.values))
 
     # --- routing key and token of the fully bound statement
+    ref_tokens = {}
     for how, b in (("positional", b_pos), ("dict", b_dict)):
         if b is None:
             continue
@@ -307,9 +324,11 @@ def interpret(case, ctx):
                              "routing_key = %r, expected %r (components in key order %r)" % (rk, want, parts)):
                 continue
             tok = Murmur3Token.from_key(rk).value
-            ctx.check(tok == M3.murmur3_token(want), ["C30.token", shape],
+            if want not in ref_tokens:
+                ref_tokens[want] = M3.murmur3_token(want)
+            ctx.check(tok == ref_tokens[want], ["C30.token", shape],
                       "Murmur3Token.from_key(routing_key) = %r, reference token of the partition key = %r" % (
-                          tok, M3.murmur3_token(want)))
+                          tok, ref_tokens[want]))
 
     # --- the variation
     var = case["variation"]
